@@ -290,6 +290,13 @@ func (c *updater) buildBackendAuthHTTP(d *backData) {
 		}
 		listName := strings.Replace(secretName, "/", "_", 1)
 		userlist := c.haproxy.Userlists().Find(listName)
+		if userlist != nil && !c.options.DynamicConfig.CrossNamespaceSecretPasswd &&
+			strings.Split(secretName, "/")[0] != authSecret.Source.Namespace {
+			// an userlist of another namespace can only be reused if cross namespace is allowed
+			c.logger.Error("error reading basic authentication on %v: trying to read secret '%s' cross namespaces, but cross-namespace reading is disabled",
+				authSecret.Source, secretName)
+			continue
+		}
 		if userlist == nil {
 			userb, err := c.cache.GetPasswdSecretContent(
 				authSecret.Source.Namespace,
